@@ -113,6 +113,20 @@ func checkRequestPlacement(d *spec.Design, s *spec.Service, m *spec.Method, payl
 	// ---- path
 	esc := req.URL.EscapedPath()
 	psegs, wsegs := strings.Split(pat, "/"), strings.Split(esc, "/")
+	if n := len(psegs); n > 0 && strings.HasPrefix(psegs[n-1], "{*") && len(wsegs) >= n {
+		// a catch-all takes the rest of the path: compared as one value, slashes included
+		name := strings.Trim(psegs[n-1], "{}*")
+		rest := wsegs[n-1:]
+		for i := range rest {
+			if dec, err := url.PathUnescape(rest[i]); err == nil {
+				rest[i] = dec
+			}
+		}
+		if f := pt.Field(name); f != nil && obj[name] != nil && !textEq(spec.String, strings.Join(rest, "/"), obj[name]) {
+			errs = append(errs, fmt.Sprintf("catch-all path parameter %s: wire text %q, value %s", name, strings.Join(rest, "/"), gen.Show(obj[name])))
+		}
+		psegs, wsegs = psegs[:n-1], wsegs[:n-1]
+	}
 	if len(psegs) != len(wsegs) {
 		errs = append(errs, fmt.Sprintf("path %q does not have the shape of %q", esc, pat))
 	} else {
